@@ -89,6 +89,76 @@ func (gs GenerateSettings) fixedSize(typ string) (uint8, bool) {
 	return sz, ok
 }
 
+// minSize is a lower bound for the number of bytes a value of the type takes
+// on the wire.
+func (gs GenerateSettings) minSize(ft FieldType) int {
+	if ft.Array != nil || ft.Map != nil {
+		return 4
+	}
+	if ft.Simple == typeString {
+		return 4
+	}
+	simpleTyp := ft.Simple
+	if alias, ok := gs.importTypeAliases[simpleTyp]; ok {
+		simpleTyp = alias
+	}
+	if sz, ok := gs.fixedSize(simpleTyp); ok {
+		return int(sz)
+	}
+	return gs.recordMinSizes[simpleTyp]
+}
+
+// recordMinSizes maps every record name to a lower bound of its encoded size:
+// the framing of a message or union, the sum of its fields for a struct.
+func (f File) recordMinSizes(gs GenerateSettings) map[string]int {
+	out := make(map[string]int)
+	structs := make(map[string]Struct)
+	for _, st := range f.Structs {
+		structs[st.Name] = st
+	}
+	for _, msg := range f.Messages {
+		out[msg.Name] = 5
+	}
+	for _, union := range f.Unions {
+		out[union.Name] = 4
+		for _, ufd := range union.Fields {
+			if ufd.Message != nil {
+				out[ufd.Message.Name] = 5
+			}
+			if ufd.Struct != nil {
+				structs[ufd.Struct.Name] = *ufd.Struct
+			}
+		}
+	}
+	gs.recordMinSizes = out
+	var structSize func(name string, seen map[string]bool) int
+	structSize = func(name string, seen map[string]bool) int {
+		st, ok := structs[name]
+		if !ok || seen[name] {
+			return 0
+		}
+		seen[name] = true
+		defer delete(seen, name)
+		total := 0
+		for _, fd := range st.Fields {
+			simpleTyp := fd.FieldType.Simple
+			if alias, ok := gs.importTypeAliases[simpleTyp]; ok {
+				simpleTyp = alias
+			}
+			if _, isStruct := structs[simpleTyp]; isStruct && fd.Array == nil && fd.Map == nil {
+				total += structSize(simpleTyp, seen)
+			} else {
+				total += gs.minSize(fd.FieldType)
+			}
+		}
+		return total
+	}
+	for name := range structs {
+		out[name] = structSize(name, map[string]bool{})
+	}
+	return out
+}
+
 func (f File) usedTypes() map[string]bool {
 	out := make(map[string]bool)
 	for _, st := range f.Structs {
